@@ -113,7 +113,8 @@ def _physics(phys, k, output_file, prog, solve_steps=8):
         o.update(include_screening=True, screening_tolerance=1e-2)
         kw = dict(applied_vector_potential=0.3, terminal_currents={"source": 2.0, "drain": -2.0})
     elif phys == "hole":
-        kw = dict(applied_vector_potential=0.5, terminal_currents={"source": 4.0, "drain": -4.0})
+        o.update(dt_init=dt / 4, dt_max=dt / 4, solve_time=solve_steps * dt / 4)
+        kw = dict(applied_vector_potential=0.3, terminal_currents={"source": 0.5, "drain": -0.5})
     return tdgl.SolverOptions(**o), kw
 
 
